@@ -108,7 +108,9 @@ fn main() {
     for e in args[2..].iter() {
         a.push(e);
     }
-    hx::quiet_panics();
+    if std::env::var_os("C02_LOUD").is_none() {
+        hx::quiet_panics();
+    }
     let o = LsmtkOptions::from_arguments_relaxed("c02", &a).0;
     let opened = std::panic::catch_unwind(|| KeyValueStore::open(o));
     let kvs = match opened {
